@@ -75,7 +75,18 @@ def run_case(ctx):
     if negative:
         t.limit = None          # (a level limit on the readers could hide the difference)
         t.opts["limit"] = None
+        far = src.flag("neg.far_origin", 3)
         m2, kind = mutate_mesh(src, t.m1)
+        if far and m2 is not None:
+            # a domain far from the coordinate origin relative to its cell size: physical box bounds of
+            # different boxes agree to many digits, index ranges do not
+            for d in range(t.m1.ndims):
+                off = 2.0 ** 22 * (t.m1.geo_high[d] - t.m1.geo_low[d])
+                for mm in (t.m1, m2):
+                    mm.geo_low[d] += off
+                    mm.geo_high[d] += off
+            t.m1.phys = m2.phys = None
+            ctx.probe("negative_far_origin")
         if m2 is None:
             negative = False
         else:
